@@ -65,3 +65,90 @@ def filter_ccv_policy(ccv_policy, dense_argmax, dense_vars_grid_shape):
         out = ccv_policy[indices]
     return out
 
+
+def simulate(params, initial_states, state_indexers, continuous_choice_grids, compute_ccv_policy_functions, model, next_state, logger, solve_model=None, vf_arr_list=None, additional_targets=None, seed=12345):
+    if vf_arr_list is None:
+        if solve_model is None:
+            raise ValueError('You need to provide either vf_arr_list or solve_model.')
+        vf_arr_list = solve_model(params)
+    logger.info('Starting simulation')
+    vf_arr_list = vf_arr_list[1:] + [None]
+    n_periods = len(vf_arr_list)
+    n_initial_states = len(next(iter(initial_states.values())))
+    _discrete_policy_calculator = get_discrete_policy_calculator(variable_info=model.variable_info)
+    sparse_choice_variables = model.variable_info.query('is_choice & is_sparse').index
+    states = initial_states
+    key = jax.random.PRNGKey(seed=seed)
+    _simulation_results = []
+    for period in range(n_periods):
+        data_scs, data_choice_segments = create_data_scs(states=states, model=model, period=period)
+        dense_vars_grid_shape = tuple((len(grid) for grid in data_scs.dense_vars.values()))
+        cont_choice_grid_shape = tuple((len(grid) for grid in continuous_choice_grids[period].values()))
+        discrete_policy_calculator = partial(_discrete_policy_calculator, choice_segments=data_choice_segments)
+        ccv_policy, ccv = solve_continuous_problem(data_scs=data_scs, compute_ccv=compute_ccv_policy_functions[period], continuous_choice_grids=continuous_choice_grids[period], vf_arr=vf_arr_list[period], state_indexers=state_indexers[period], params=params)
+        dense_argmax, sparse_argmax, value = discrete_policy_calculator(ccv)
+        cont_choice_argmax = filter_ccv_policy(ccv_policy=ccv_policy, dense_argmax=dense_argmax, dense_vars_grid_shape=dense_vars_grid_shape)
+        if sparse_argmax is not None:
+            cont_choice_argmax = cont_choice_argmax[sparse_argmax]
+            if dense_argmax is not None:
+                dense_argmax = dense_argmax[sparse_argmax]
+        dense_choices = retrieve_non_sparse_choices(indices=dense_argmax, grids=data_scs.dense_vars, grid_shape=dense_vars_grid_shape)
+        cont_choices = retrieve_non_sparse_choices(indices=cont_choice_argmax, grids=continuous_choice_grids[period], grid_shape=cont_choice_grid_shape)
+        sparse_choices = {key: data_scs.sparse_vars[key][sparse_argmax] for key in sparse_choice_variables}
+        choices = {**dense_choices, **sparse_choices, **cont_choices}
+        _simulation_results.append({'value': value, 'choices': choices, 'states': states})
+        key, sim_keys = _generate_simulation_keys(key=key, ids=model.function_info.query('is_stochastic_next').index)
+        states = next_state(**states, **choices, _period=jnp.repeat(period, n_initial_states), params=params, keys=sim_keys)
+        states = {k.removeprefix('next_'): v for k, v in states.items()}
+        logger.info('Period: %s', period)
+    processed = _process_simulated_data(_simulation_results)
+    if additional_targets is not None:
+        calculated_targets = _compute_targets(processed, targets=additional_targets, model_functions=model.functions, params=params)
+        processed = {**processed, **calculated_targets}
+    return _as_data_frame(processed, n_periods=n_periods)
+
+
+def solve_continuous_problem(data_scs, compute_ccv, continuous_choice_grids, vf_arr, state_indexers, params):
+    _gridmapped = spacemap(func=compute_ccv, dense_vars=list(data_scs.dense_vars), sparse_vars=list(data_scs.sparse_vars), put_dense_first=False)
+    gridmapped = jax.jit(_gridmapped)
+    return gridmapped(**data_scs.dense_vars, **continuous_choice_grids, **data_scs.sparse_vars, **state_indexers, vf_arr=vf_arr, params=params)
+
+
+def create_data_scs(states, model, period):
+    vi = model.variable_info
+    has_sparse_choice_vars = len(vi.query('is_sparse & is_choice')) > 0
+    n_states = len(next(iter(states.values())))
+    state_names = set(vi.query('is_state').index)
+    if state_names != set(states.keys()):
+        missing = state_names - set(states.keys())
+        too_many = set(states.keys()) - state_names
+        raise ValueError(f'You need to provide an initial value for each state variable in the model.\n\nMissing initial states: {missing}\n', f'Provided variables that are not states: {too_many}')
+    sparse_choices = {name: grid for name, grid in model.grids.items() if name in vi.query('is_sparse & is_choice').index.tolist()}
+    dense_choices = {name: grid for name, grid in model.grids.items() if name in vi.query('is_dense & is_choice & ~is_continuous').index.tolist()}
+    if has_sparse_choice_vars:
+        sc_product, n_sc_product_combinations = dict_product(sparse_choices)
+        _combination_grid = {}
+        for name, state in states.items():
+            _combination_grid[name] = jnp.repeat(state, repeats=n_sc_product_combinations)
+        for name, choice in sc_product.items():
+            _combination_grid[name] = jnp.tile(choice, reps=n_states)
+        filter_names = model.function_info.query('is_filter').index.tolist()
+        scalar_filter = concatenate_functions(functions=model.functions, targets=filter_names, aggregator=jnp.logical_and)
+        fixed_inputs = {'_period': period}
+        potential_kwargs = _combination_grid | fixed_inputs
+        parameters = list(inspect.signature(scalar_filter).parameters)
+        kwargs = {k: v for k, v in potential_kwargs.items() if k in parameters}
+        vmapped_parameters = [p for p in parameters if p != '_period']
+        _filter = vmap_1d(scalar_filter, variables=vmapped_parameters)
+        mask = _filter(**kwargs)
+        combination_grid = {name: grid[mask] for name, grid in _combination_grid.items()}
+    else:
+        combination_grid = states
+        data_choice_segments = None
+    data_scs = Space(sparse_vars=combination_grid, dense_vars=dense_choices)
+    if has_sparse_choice_vars:
+        data_choice_segments = create_choice_segments(mask=mask, n_sparse_states=n_states)
+    else:
+        data_choice_segments = None
+    return (data_scs, data_choice_segments)
+
